@@ -139,21 +139,27 @@ def coq_deps(target_v):
 
 
 def coq_build(targets, timeout=1500, clean=False):
-    """Full .vo build (never -vos/-vok) of the given targets (paths relative to coq/). (ok, log)."""
+    """Full .vo build (never -vos/-vok) of the given targets (paths relative to coq/). (ok, log).
+    (`clean` is accepted for compatibility and ignored: deleting shared .vo files under concurrently running checks
+    caused spurious failures; the thorough tier re-checks the compiled cone with coqchk instead, see coqchk_cone.)"""
     with Lock("coq"):
         rc, out = sh([os.path.join(ROOT, "bin", "coqproject")], timeout=120)
         if rc != 0:
             return False, out
-        if clean:
-            for t in targets:
-                for dep in coq_deps(os.path.join(COQ, t[:-1])):
-                    for ext in ("o", "ok", "os"):
-                        try:
-                            os.remove(dep + ext)
-                        except OSError:
-                            pass
         rc, out2 = sh(["make", "-j%d" % NCPU] + list(targets), cwd=COQ, timeout=timeout)
         return rc == 0, out + out2
+
+
+def coqchk_cone(prop_id, timeout=3000):
+    """Thorough tier: independent re-check of Props/<id>.vo and everything it depends on with coqchk; returns
+    (ok, axioms listed by coqchk, log)."""
+    with Lock("coq"):
+        rc, out = sh(["coqchk", "-silent", "-o", "-Q", COQ, "SL", "SL.Props.%s" % prop_id], timeout=timeout)
+    axioms = []
+    m = re.search(r"\* Axioms:(.*?)(?:\n\s*\n|\* |$)", out, re.S)
+    if m:
+        axioms = [a.strip() for a in m.group(1).strip().split("\n") if a.strip() and "<none>" not in a]
+    return rc == 0, axioms, out
 
 
 def theorem_names(props_file):
@@ -387,6 +393,14 @@ def standard_front(run, prop_id, targets=None, allowed_axioms=(), gen=None, clea
                     run.oblige(p, False)
         run.extra["axioms"] = a["axioms"]
         run.extra["proof_cone"] = a["cone"]
+        if run.tier == "thorough":
+            cok, cax, clog = coqchk_cone(prop_id)
+            bad_ax = [x for x in cax if x.split(".")[-1] not in allowed_axioms]
+            run.oblige("coqchk -o re-check of the compiled cone of Props/%s.vo" % prop_id, cok and not bad_ax)
+            run.extra["coqchk_axioms"] = cax
+            if not cok:
+                run.extra["coqchk_log"] = clog[-1200:]
+            res["coqchk_ok"] = cok and not bad_ax
     else:
         res["audit"] = None
         names = theorem_names(os.path.join(COQ, "Props", prop_id + ".v"))
